@@ -90,8 +90,24 @@ impl Prop for C09 {
     }
     fn check(&self, spec: &GrammarSpec, st: &mut Stats) -> Outcome {
         let text = spec.render();
+        // a user rule named like the helper rule of a repetition used in the grammar: the helper
+        // "shared by all identical uses" cannot be the user's rule, so the text must be refused
+        let helpers = spec.helper_names();
+        let collision = spec.rules.iter().find(|r| helpers.contains(&r.name)).map(|r| r.name.clone());
         let d = match compile_or_discard(&text, &Cfg::raw(TT::Pager), st) {
-            Ok(d) => d,
+            Ok(d) => {
+                if let Some(name) = &collision {
+                    return Outcome::fail(
+                        "sugar|user-rule-taken-for-repetition-helper",
+                        format!("grammar:\n{text}\nthe user rule '{name}' has the name of the helper rule of a repetition used in this grammar, yet the grammar was accepted (the repetition then denotes the user's rule, not its documented expansion)"),
+                    );
+                }
+                d
+            }
+            Err(Some(e)) if collision.is_some() && e.contains("collides with the rule created for a repetition") => {
+                st.class("helper-name-collision-refused");
+                return Outcome::Pass;
+            }
             Err(Some(e)) => {
                 let c = crate::props::c16::classify_err(&e);
                 if c == "err-recursion" {
